@@ -103,8 +103,19 @@ thread_local! {
     pub static MID_POLL: std::cell::RefCell<Option<Box<dyn FnOnce()>>> = const { std::cell::RefCell::new(None) };
 }
 
+thread_local! {
+    /// the future returned by the call is dropped without ever being polled (the losing branch
+    /// of a select, a cancelled request): `drive` unwinds with this payload instead of a result
+    pub static DROP_UNPOLLED: std::cell::Cell<bool> = const { std::cell::Cell::new(false) };
+}
+pub const UNPOLLED: &str = "future dropped without a poll";
+
 /// drive a future to completion with a no-op waker, counting polls
 pub fn drive<F: Future>(fut: F, polls: &mut usize) -> F::Output {
+    if DROP_UNPOLLED.with(|d| d.get()) {
+        drop(fut);
+        std::panic::resume_unwind(Box::new(UNPOLLED.to_string()));
+    }
     let mut fut = Box::pin(fut);
     let w = noop_waker();
     let mut cx = Context::from_waker(&w);
